@@ -270,13 +270,13 @@ pub fn execute(sc: &Scenario, choices: &[usize]) -> Exec {
     let mut stuck_wd = false;
 
     loop {
-        let (threads, settled) = gates.wait_settled(Duration::from_secs(5));
+        let (threads, settled) = gates.wait_settled(Duration::from_millis(2500));
         if !settled {
             let wd_stuck = threads.iter().any(|t| t.name == "wd" && t.status == St::Running);
             if l.sender_dropped && wd_stuck {
                 ex.violations.push((
                     "lingering-thread".into(),
-                    format!("the response was dropped but the timeout thread is still busy 5 s later (it neither reached a schedule point nor ended): {:?}", threads.iter().map(|t| (t.name, t.status.clone())).collect::<Vec<_>>()),
+                    format!("the response was dropped but the timeout thread is still busy 2.5 s later (it neither reached a schedule point nor ended): {:?}", threads.iter().map(|t| (t.name, t.status.clone())).collect::<Vec<_>>()),
                 ));
                 stuck_wd = true;
             } else {
@@ -558,7 +558,14 @@ pub struct ExploreStats {
 pub fn explore(ctx: &Ctx, sc: &Scenario, bound: usize, rank_base: u64) -> ExploreStats {
     let mut st = ExploreStats { executions: 0, decision_points: 0, max_depth: 0, retried: 0, outcomes: BTreeMap::new() };
     let mut stack: Vec<Vec<usize>> = vec![vec![]];
+    let mut violating = 0u32;
     while let Some(prefix) = stack.pop() {
+        if violating >= 3 {
+            // the verdict for this scenario is in; on a broken tree every further schedule may cost
+            // seconds (a stuck thread is only told from a slow one by waiting)
+            ctx.count("scenarios_cut_short_after_3_violating_schedules", 1);
+            return st;
+        }
         let mut ex = execute(sc, &prefix);
         let mut tries = 0;
         while ex.machinery.is_some() && tries < 3 {
@@ -592,6 +599,7 @@ pub fn explore(ctx: &Ctx, sc: &Scenario, bound: usize, rank_base: u64) -> Explor
                 ctx.machinery(format!("a violating schedule did not reproduce: {sc:?} {full:?}: {:?} vs {:?}", ex.violations, again.violations));
                 return st;
             }
+            violating += 1;
             for (sig, what) in &ex.violations {
                 ctx.violation(
                     format!("C13:{sig}:{:?}", sc.framing).to_lowercase().replace("c13:", "C13:"),
